@@ -127,6 +127,14 @@ def step (line : String) : String :=
     match parseQc q with
     | some (some q) => showBytes (canonQc q)
     | _ => "bad-op"
+  | "electionwf" :: ws =>
+    -- a validly signed ELECTION message at the right height: accepted iff its VRF is well formed
+    match ws.reverse with
+    | k :: rest =>
+      match parseMsg rest.reverse, ofHex k with
+      | some m, some k => if m.electionWellFormed k then "ok" else "rej"
+      | _, _ => "bad-op"
+    | [] => "bad-op"
   | "msgsb" :: ws =>
     match parseMsg ws with
     | some m => showBytes (msgSignBytes m)
